@@ -1,6 +1,6 @@
 (* Model/C14Check.v — Z / Qc instances and certificate checks for nvecs evaluated by the generated cases. *)
 From Coq Require Import List Arith Bool ZArith QArith Qabs Qcanon.
-From PV Require Import Base.Index Base.Sum Np.Array Model.Sparse Model.Repr Model.Harness Model.C10Tucker Model.C10Check Model.C14Nvecs.
+From PV Require Import Base.Index Base.Sum Np.Array Model.Sparse Model.Repr Model.Harness Model.C10Tucker Model.C10Check Model.C14Nvecs Model.C14Gram.
 Import ListNotations.
 Local Open Scope Qc_scope.
 
@@ -26,6 +26,8 @@ Definition gram_recorded_ok (R : zrepr) (n : nat) (Y : list (list Z)) : bool := 
 (* the Gram matrix as the dense / Kruskal code computes it = recorded input *)
 Definition gram_dense_code (T : dense Z) (n : nat) := gram_dense_impl 0%Z Z.add Z.mul T n.
 Definition gram_k_code (K : ktensor Z) (n : nat) := gram_k_impl 0%Z Z.add Z.mul K n.
+Definition gram_sp_code (Sp : sparse Z) (n : nat) := gram_sp_impl 0%Z Z.add Z.mul Sp n.
+Definition gram_t_code (T : ttensor Z) (n : nat) := gram_t_impl 0%Z 1%Z Z.add Z.mul T n.
 
 Definition qcol (V : qmatrix) (j : nat) : list Qc := map (fun row => nth j row q0) V.
 Definition qdot (a b : list Qc) : Qc := sum_over q0 Qcplus (combine a b) (fun p => fst p * snd p).
